@@ -8,7 +8,7 @@ typedef struct { char str[16]; int64_t t; int utc; } tm_in;
 DECL_INPUT(tm_in);
 
 /* year loop closed by its invariant (days == D(year0) - D(year)); digit scan (<= 14) and month loop (<= 11) unwound completely */
-//@job name=asn1_time_from_str props=C14,C06 enforce=asn1_time_from_str loops=1 unwindset=asn1_time_from_str.*:16 timeout=2400 solver=kissat
+//@job name=asn1_time_from_str props=C14,C06 enforce=asn1_time_from_str loops=1 timeout=2400 solver=kissat
 void h_asn1_time_from_str(void)
 {
 	INPUT(tm_in, T);
